@@ -104,6 +104,8 @@ type Config struct {
 	TamperH     func(h []byte) []byte          // server: sign this instead of H
 	OnPacketOut func(seq uint32, payload []byte) // observes every payload written
 	OnPacketIn  func(seq uint32, payload []byte) // observes every payload read
+	// Ext holds optional scripted deviations for the kex methods of ext.go (nil = well-behaved).
+	Ext *Ext
 }
 
 func (c *Config) defaults(isClient bool) {
